@@ -169,7 +169,29 @@ func run(c *mc.Ctx) {
 		} else if !k.nilIn {
 			data = content(s, k.n, k.class)
 		}
-		o := s.call(k.used, data)
+		// the argument is handed over as a sub-slice with spare capacity and a guard pattern behind it: no entry
+		// point may write into the caller's buffer, neither into the bytes it was given nor behind them
+		arg := data
+		var buf []byte
+		if data != nil {
+			buf = make([]byte, len(data)+48)
+			copy(buf, data)
+			for j := len(data); j < len(buf); j++ {
+				buf[j] = 0xa5
+			}
+			arg = buf[:len(data)]
+		}
+		o := s.call(k.used, arg)
+		if buf != nil {
+			clean := bytes.Equal(buf[:len(data)], data)
+			for j := len(data); j < len(buf); j++ {
+				clean = clean && buf[j] == 0xa5
+			}
+			if !clean {
+				w.Fail(s.name+"/caller-memory-modified", fmt.Sprintf("%s wrote into the caller's input buffer (or behind it) on %d bytes", s.name, len(data)),
+					map[string]interface{}{"surface": s.name, "len": len(data), "class": k.class})
+			}
+		}
 		cas := map[string]interface{}{"surface": s.name, "len": len(data), "class": k.class, "used_receiver": k.used, "nil": k.nilIn, "data": mc.Hex(data), "injected": k.inj}
 		wrongLen := s.size >= 0 && len(data) != s.size
 		w.Eval(fmt.Sprintf("%s/wronglen=%v", s.name, wrongLen), wrongLen || k.class >= 2)
